@@ -1418,6 +1418,36 @@ pub fn c08(tier: Tier, caps: &Caps) -> Vec<FamilyReport> {
             json!({"phase": if *as_connack { "as-connack" } else { "after-connack" }, "bytes": mr::hex(b), "fragmented": false})
         },
     ));
+    // many of something in one packet (a 4096-byte receive buffer)
+    const MANY_RX: usize = 4096;
+    let mut many: Vec<Vec<u8>> = Vec::new();
+    {
+        let pr = |id: u8, val: PVal| Prop { id, val };
+        let publish = |props: Vec<Prop>, qos: u8| SPacket::Publish { dup: false, qos, retain: false, topic: b"m".to_vec(), pid: if qos > 0 { Some(7) } else { None }, props, payload: vec![0x31, 0x32] };
+        for n in [2usize, 8, 9, 16, 17, 50, 120] {
+            many.push(publish((0..n).map(|i| pr(0x26, PVal::Pair(format!("k{}", i % 3).into_bytes(), format!("v{}", i).into_bytes()))).collect(), (n % 3) as u8).encode());
+            many.push(publish((0..n).map(|i| pr(0x0B, PVal::Var(1 + (i as u32) * 131))).collect(), ((n + 1) % 3) as u8).encode());
+            let mut mixed: Vec<Prop> = vec![pr(0x01, PVal::Byte(1)), pr(0x08, PVal::Str(b"r/t".to_vec()))];
+            mixed.extend((0..n).map(|i| if i % 2 == 0 { pr(0x26, PVal::Pair(b"k".to_vec(), vec![b'v'; i % 7])) } else { pr(0x0B, PVal::Var(i as u32 + 1)) }));
+            mixed.push(pr(0x09, PVal::Bin(vec![9, 9])));
+            many.push(publish(mixed, 1).encode());
+        }
+        for n in [1usize, 8, 9, 127, 128, 300, 1000] {
+            many.push(SPacket::SubAck { pid: 1, props: vec![], codes: (0..n).map(|i| [0u8, 1, 2, 0x80, 0x87][i % 5]).collect() }.encode());
+            many.push(SPacket::UnsubAck { pid: 1, props: vec![], codes: (0..n).map(|i| [0u8, 0x11, 0x80][i % 3]).collect() }.encode());
+        }
+        many.push(SPacket::Ack { kind: AckKind::PubAck, pid: 1, reason: 0x10, props: (0..40).map(|i| pr(0x26, PVal::Pair(b"k".to_vec(), format!("{}", i).into_bytes()))).collect(), form: 2 }.encode());
+        many.push(SPacket::Disconnect { reason: 0x8B, props: (0..40).map(|i| pr(0x26, PVal::Pair(b"k".to_vec(), format!("{}", i).into_bytes()))).collect(), form: 2 }.encode());
+    }
+    out.push(sweep(
+        "C08-many-properties-and-reason-codes-in-one-packet",
+        "C08",
+        many.len() as u64 * 2,
+        caps,
+        json!({"cases": "PUBLISH with 2..120 user properties (repeated keys), with 2..120 subscription identifiers, and mixed with once-only properties; SUBACK / UNSUBACK with 1..1000 reason codes; PUBACK and DISCONNECT with 40 user properties; each whole and byte-by-byte", "rx": MANY_RX}),
+        &|i| c08_after_connack_rx(&many[(i / 2) as usize], i % 2 == 1, MANY_RX),
+        &|i| json!({"phase": "after-connack", "bytes": mr::hex(&many[(i / 2) as usize]), "fragmented": i % 2 == 1, "rx": MANY_RX}),
+    ));
     // what a reason byte MEANS to the application: the variant the crate decodes each byte to, against the name MQTT 5
     // gives that value (a table consistent with itself in both directions would pass every byte-level comparison)
     out.push(sweep(
